@@ -1253,7 +1253,9 @@ def check_indexable(event: Event):
     try:
         for key in INDEXES["tags"].convert(event):
             pass
-    except (TypeError, AttributeError):
+        # integers beyond 64 bits and the like cannot be stored in the row
+        encode_event(event)
+    except (TypeError, AttributeError, ValueError, OverflowError):
         raise StorageError("invalid: bad tags")
 
 
